@@ -338,7 +338,50 @@ func inStack(stack []*ssa.Call, g *ssa.Function) bool {
 
 // scan explores from (b, from) in calling context `stack`.
 func (s *ipSearch) scan(b *ssa.BasicBlock, from int, stack []*ssa.Call) bool {
-	return s.scanF(b, from, stack, nil)
+	return s.scanF(b, from, stack, seedFacts(b))
+}
+
+// seedFacts: what is already decided where a search starts: the outcomes of mode flags and boolean
+// parameters that the start block is conditioned on (a search starting inside `if closing { … }`
+// knows closing is true; one starting inside `if remove { … }` knows the helper was called with true).
+func seedFacts(b *ssa.BasicBlock) *factSet {
+	var f *factSet
+	for _, cf := range impliedConds(b) {
+		cond, kind := cf.Cond, 1
+		if !cf.True {
+			kind = 2
+		}
+		for {
+			u, ok := cond.(*ssa.UnOp)
+			if !ok || u.Op != token.NOT {
+				break
+			}
+			cond, kind = u.X, 3-kind
+		}
+		_, isParam := cond.(*ssa.Parameter)
+		if (isParam || multiTested(cond)) && f.get(cond) == 0 {
+			f = f.add(cond, kind)
+		}
+	}
+	return f
+}
+
+// callerContradicts: the call site passes a constant for a parameter that the path knows to have the other value.
+func callerContradicts(cs *ssa.Call, fn *ssa.Function, facts *factSet) bool {
+	args := cs.Common().Args
+	if len(args) != len(fn.Params) {
+		return false
+	}
+	for i, q := range fn.Params {
+		k := facts.get(q)
+		if k == 0 {
+			continue
+		}
+		if ka := constKind(args[i]); ka != 0 && ka != k && (k == 1 || k == 2 || k == 3) {
+			return true
+		}
+	}
+	return false
 }
 
 // curStack: calling context of the instruction a predicate is currently being asked about
@@ -360,6 +403,9 @@ func (s *ipSearch) scanF(b *ssa.BasicBlock, from int, stack []*ssa.Call, facts *
 			}
 			if s.up && b.Parent() != s.stop && !s.p.activityRoot(b.Parent()) {
 				for _, cs := range s.p.syncCallers(b.Parent()) {
+					if callerContradicts(cs, b.Parent(), facts) {
+						continue // this caller cannot be the one: it passes the opposite constant
+					}
 					nf := retFacts(cs, in.(*ssa.Return), nil)
 					key := fmt.Sprintf("up%p|%s", cs, factsKey(nf))
 					if s.seen[key] {
